@@ -206,6 +206,9 @@ def r3_checkpoint_whole_table(ctx):
 
 
 def run(ctx):
+    # E-dirty (rules/dirtyflag.py): every dirty flag found in the crate whose saver lives in this property's modules
+    from . import dirtyflag
+    dirtyflag.rule_dirty(ctx, "C17.R5", ["cascette_client_storage"], file_pat=r"src/lru/", floor=0)
     # "checkpoints and reloads" keep the tracker's state only if a checkpoint never deletes the file it has just written (C06.R10)
     from . import c06
     c06.r10_no_self_delete(ctx, c06.CFG)
@@ -215,4 +218,4 @@ def run(ctx):
 
 
 from .selftest import for_families as _ff  # noqa: E402
-selftest = _ff(['gate'])
+selftest = _ff(['gate', 'dirty'])
